@@ -11,14 +11,14 @@ Proof.
   destruct (n =? 0) eqn:En.
   - apply N.eqb_eq in En. subst n. change (0 <? 0) with false. cbv iota.
     destruct (typ =? gen_tokenSemicolon);
-    (destruct (typ =? gen_tokenRaw); [destruct (_ =? gen_tokenStartStatement)|
+    (destruct (l_tsyn _); [destruct (typ =? gen_tokenRaw); [destruct (_ =? gen_tokenStartStatement)|
       destruct (typ =? gen_tokenIdentifier); [cbn [l_raw set_out set_tot]; destruct (l_raw l); [destruct (_ =? gen_tokenRaw)|]|
-      destruct (typ =? gen_tokenEnd)]]);
+      destruct (typ =? gen_tokenEnd)]]|]);
     intros H; injection H as <-; eexists; cbn; (split; [reflexivity|split; [reflexivity|split; [reflexivity|intros C; contradiction]]]).
   - assert (Hlt : (0 <? n) = true) by (apply N.ltb_lt; apply N.eqb_neq in En; lia). rewrite Hlt.
-    destruct (typ =? gen_tokenRaw); [destruct (_ =? gen_tokenStartStatement)|
+    destruct (l_tsyn _); [destruct (typ =? gen_tokenRaw); [destruct (_ =? gen_tokenStartStatement)|
       destruct (typ =? gen_tokenIdentifier); [cbn [l_raw set_out set_tot]; destruct (l_raw l); [destruct (_ =? gen_tokenRaw)|]|
-      destruct (typ =? gen_tokenEnd)]];
+      destruct (typ =? gen_tokenEnd)]]|];
     intros H; injection H as <-; eexists; cbn; (split; [reflexivity|split; [reflexivity|split; [reflexivity|intros _; reflexivity]]]).
 Qed.
 
